@@ -60,7 +60,8 @@ func genSpec(r *rand.Rand, name string) *h.Spec {
 		is := h.InstSpec{Name: fmt.Sprintf("i%d", i), Group: "g0", H: hb, ValInterval: []time.Duration{0, hb, 2 * hb}[r.IntN(3)]}
 		is.Conn = r.IntN(2) == 0
 		if is.Conn {
-			is.Grace = []time.Duration{0, 2 * hb, 3 * hb}[r.IntN(3)]
+			// (0 = the 5 s default would never run out within a scenario)
+			is.Grace = []time.Duration{2 * hb, 3 * hb, 3 * hb, 0}[r.IntN(4)]
 		}
 		if r.IntN(3) == 0 {
 			is.HealthOn, is.MaxFail = true, 1+r.IntN(3)
@@ -126,9 +127,21 @@ func TestBatch(t *testing.T) {
 
 func runScenario(t *testing.T, r *rand.Rand, res *h.Result) {
 	spec := genSpec(r, res.Name)
+	// every fourth scenario concentrates on the grace period: one instance with connection
+	// monitoring and a short grace period, no lifecycle calls, no outside party, no store
+	// faults - so that it leads most of the time and disconnects actually run into their expiry
+	focus := r.IntN(4) == 0
+	if focus {
+		spec.Insts = spec.Insts[:1]
+		spec.Insts[0].Conn = true
+		spec.Insts[0].Grace = 2 * spec.Insts[0].H
+		spec.Insts[0].HealthOn = false
+		spec.Rules = nil
+		res.Obs["c20.scenarios_grace_focus"]++
+	}
 	// every other scenario is "calm": no outside party and rare lifecycle calls, so that
 	// terms live long enough for grace periods to run out, verifications to complete, etc.
-	calm := r.IntN(2) == 0
+	calm := r.IntN(2) == 0 || focus
 	if calm {
 		res.Obs["c20.scenarios_calm"]++
 	}
@@ -253,6 +266,10 @@ func runScenario(t *testing.T, r *rand.Rand, res *h.Result) {
 						return
 					default:
 					}
+					if focus {
+						time.Sleep(50 * ms) // no lifecycle calls in these scenarios
+						continue
+					}
 					if calm {
 						time.Sleep(time.Duration(300+rl.IntN(500)) * ms)
 					} else {
@@ -300,7 +317,11 @@ func runScenario(t *testing.T, r *rand.Rand, res *h.Result) {
 					life.Unlock()
 					var f nats.ConnHandler
 					which := ""
-					switch rc.IntN(5) {
+					pick := rc.IntN(5)
+					if focus && pick >= 4 {
+						pick = 0 // (no "closed" notifications here; mostly disconnects that run out)
+					}
+					switch pick {
 					case 0, 1:
 						f, which = d, "conn.D"
 					case 2, 3:
@@ -314,7 +335,7 @@ func runScenario(t *testing.T, r *rand.Rand, res *h.Result) {
 					}
 					// let the grace period run out now and then (otherwise the next notification
 					// always comes first and the expiry path is never executed)
-					if which == "conn.D" && grace > 0 && rc.IntN(2) == 0 {
+					if which == "conn.D" && grace > 0 && (calm || rc.IntN(2) == 0) {
 						tm := time.After(grace + time.Duration(rc.IntN(20))*ms)
 					wait:
 						for {
